@@ -8,14 +8,19 @@ package main
 import (
 	"bufio"
 	"context"
+	"crypto/tls"
 	"errors"
 	"fmt"
 	"io"
 	"net"
 	"net/http"
+	"net/http/httptest"
+	"os"
+	"os/signal"
 	"strings"
 	"sync"
 	"sync/atomic"
+	"syscall"
 	"time"
 
 	"github.com/prometheus/client_golang/prometheus"
@@ -30,6 +35,9 @@ type fwdRunScenario struct {
 	OriginAfterMs int    `json:"origin_after_ms"` // the origin answers this long after the cancel; <0: never
 	Idle          bool   `json:"idle"`
 	LateSend      bool   `json:"late_send"`
+	// SignalAfterMs >= 0: the proxy is configured with SIGUSR1 as shutdown signal and the signal is
+	// sent this long after the cancel, i.e. the drain is cancelled (context.Canceled) instead of timing out
+	SignalAfterMs int `json:"signal_after_ms"`
 }
 
 type fwdRunResult struct {
@@ -88,6 +96,9 @@ func runRun(sc fwdRunScenario) (res fwdRunResult) {
 	cfg.PromRegistry = prometheus.NewRegistry()
 	cfg.ShutdownTimeout = time.Duration(sc.TimeoutMs) * time.Millisecond
 	cfg.ShutdownSignals = nil
+	if sc.SignalAfterMs >= 0 {
+		cfg.ShutdownSignals = []os.Signal{syscall.SIGUSR1}
+	}
 	tr := &http.Transport{MaxIdleConnsPerHost: 4}
 	hp, err := forwarder.NewHTTPProxy(cfg, nil, nil, tr, log.NopLogger, nil)
 	if err != nil {
@@ -189,6 +200,9 @@ func runRun(sc fwdRunScenario) (res fwdRunResult) {
 	if sc.OriginAfterMs >= 0 {
 		time.AfterFunc(time.Duration(sc.OriginAfterMs)*time.Millisecond, func() { releaseOnce.Do(func() { close(release) }) })
 	}
+	if sc.SignalAfterMs >= 0 {
+		time.AfterFunc(time.Duration(sc.SignalAfterMs)*time.Millisecond, func() { syscall.Kill(os.Getpid(), syscall.SIGUSR1) }) //nolint:errcheck
+	}
 	time.Sleep(20 * time.Millisecond)
 	// a new connection must not be served
 	res.Refused = true
@@ -243,6 +257,27 @@ func runRun(sc fwdRunScenario) (res fwdRunResult) {
 	return res
 }
 
+// sigSink keeps SIGUSR1 from ever killing the harness (the proxy only listens for it during a drain).
+var sigSink = func() chan os.Signal {
+	ch := make(chan os.Signal, 16)
+	signal.Notify(ch, syscall.SIGUSR1)
+	go func() {
+		for range ch {
+		}
+	}()
+	return ch
+}()
+
+// genSignalScenarios: the drain cannot finish and is interrupted by a further shutdown signal long
+// before the timeout.  They share the process-wide signal, so they are run one after the other.
+func genSignalScenarios() []fwdRunScenario {
+	return []fwdRunScenario{
+		{Name: "run/3000/signal/inflight-never", TimeoutMs: 3000, Inflight: true, OriginAfterMs: -1, SignalAfterMs: 150},
+		{Name: "run/3000/signal/idle", TimeoutMs: 3000, Idle: true, OriginAfterMs: -1, SignalAfterMs: 150},
+		{Name: "run/3000/signal/inflight-answered+idle", TimeoutMs: 3000, Inflight: true, OriginAfterMs: 60, Idle: true, SignalAfterMs: 250},
+	}
+}
+
 func genRunScenarios(tier string) []fwdRunScenario {
 	var out []fwdRunScenario
 	add := func(to int) {
@@ -261,15 +296,181 @@ func genRunScenarios(tier string) []fwdRunScenario {
 		add(250)
 		add(700)
 	}
+	for i := range out {
+		out[i].SignalAfterMs = -1
+	}
 	return out
 }
 
 func coqRun(r fwdRunResult, tol int) string {
 	z := func(n int64) string { return fmt.Sprintf("(%d)%%Z", n) }
-	return fmt.Sprintf("{| r_timeout := %s; r_elapsed := %s; r_err_ctx := %s; r_refused := %s; r_inflight := %s; r_origin_answers := %s; "+
+	return fmt.Sprintf("{| r_timeout := %s; r_cancel_at := %s; r_elapsed := %s; r_err_ctx := %s; r_refused := %s; r_inflight := %s; r_origin_answers := %s; "+
 		"r_idle_conn := %s; r_late_sent := %s; r_resp_full := %s; r_resp_close := %s; r_clients_eof := %s; r_late_served := %s; r_final_cnt := %s; "+
 		"r_upstream_closed := %s; r_tol := %s |}",
-		z(int64(r.Sc.TimeoutMs)), z(r.ElapsedMs), coqBool(r.ErrCtx), coqBool(r.Refused), coqBool(r.Sc.Inflight), z(int64(r.Sc.OriginAfterMs)),
+		z(int64(r.Sc.TimeoutMs)), z(int64(r.Sc.SignalAfterMs)), z(r.ElapsedMs), coqBool(r.ErrCtx), coqBool(r.Refused), coqBool(r.Sc.Inflight), z(int64(r.Sc.OriginAfterMs)),
 		coqBool(r.Sc.Idle), coqBool(r.Sc.LateSend), coqBool(r.RespFull), coqBool(r.RespClose), coqBool(r.ClientsEOF), coqBool(r.LateServed), z(int64(r.FinalCnt)),
 		coqBool(r.UpstreamClosed), z(int64(tol)))
+}
+
+// ---------------------------------------------------------------- late requests and MITM
+
+type mitmScenario struct {
+	Name string `json:"name"`
+	Kind string `json:"kind"` // session-get | session-connect | idle-connect
+}
+
+type mitmResult struct {
+	Sc            mitmScenario `json:"scenario"`
+	UpstreamAfter int64        `json:"upstream_after"`
+	GotResponse   bool         `json:"got_response"`
+	EOF           bool         `json:"eof"`
+	Err           string       `json:"err,omitempty"`
+}
+
+type countingRT struct {
+	inner http.RoundTripper
+	n     atomic.Int64
+}
+
+func (c *countingRT) RoundTrip(req *http.Request) (*http.Response, error) {
+	c.n.Add(1)
+	return c.inner.RoundTrip(req)
+}
+
+// runMitm: a proxy that intercepts CONNECT.  A session (CONNECT, TLS with the proxy, one request to a
+// TLS origin) or an idle keep-alive connection exists when Run's context is cancelled; the late request
+// is sent once closing has been observed.  Nothing may go upstream for it and no response may come back.
+func runMitm(sc mitmScenario) (res mitmResult) {
+	res.Sc = sc
+	origin := httptest.NewTLSServer(http.HandlerFunc(func(w http.ResponseWriter, r *http.Request) {
+		w.Header().Set("Content-Length", "2")
+		io.WriteString(w, "ok") //nolint:errcheck
+	}))
+	defer origin.Close()
+	plain := httptest.NewServer(http.HandlerFunc(func(w http.ResponseWriter, r *http.Request) {
+		w.Header().Set("Content-Length", "2")
+		io.WriteString(w, "ok") //nolint:errcheck
+	}))
+	defer plain.Close()
+	ohost := strings.TrimPrefix(origin.URL, "https://")
+	phost := strings.TrimPrefix(plain.URL, "http://")
+
+	cfg := forwarder.DefaultHTTPProxyConfig()
+	cfg.Address = "127.0.0.1:0"
+	cfg.ProxyLocalhost = forwarder.AllowProxyLocalhost
+	cfg.PromRegistry = prometheus.NewRegistry()
+	cfg.MITM = forwarder.DefaultMITMConfig()
+	cfg.ShutdownTimeout = 500 * time.Millisecond
+	cfg.ShutdownSignals = nil
+	crt := &countingRT{inner: &http.Transport{TLSClientConfig: &tls.Config{InsecureSkipVerify: true}}} //nolint:gosec
+	hp, err := forwarder.NewHTTPProxy(cfg, nil, nil, crt, log.NopLogger, nil)
+	if err != nil {
+		res.Err = "new proxy: " + err.Error()
+		return
+	}
+	addrs, _ := hp.Addr()
+	ctx, cancel := context.WithCancel(context.Background())
+	defer cancel()
+	done := make(chan error, 1)
+	go func() { done <- hp.Run(ctx) }()
+
+	conn, err := net.DialTimeout("tcp", addrs[0], time.Second)
+	if err != nil {
+		res.Err = err.Error()
+		return
+	}
+	defer conn.Close()
+	var cur net.Conn = conn
+	br := bufio.NewReader(conn)
+	readResp := func(connect bool, d time.Duration) (*http.Response, error) {
+		cur.SetReadDeadline(time.Now().Add(d))
+		defer cur.SetReadDeadline(time.Time{})
+		var rq *http.Request
+		if connect {
+			rq = &http.Request{Method: http.MethodConnect}
+		}
+		resp, err := http.ReadResponse(br, rq)
+		if err != nil {
+			return nil, err
+		}
+		io.Copy(io.Discard, resp.Body) //nolint:errcheck
+		resp.Body.Close()
+		return resp, nil
+	}
+	if sc.Kind == "idle-connect" {
+		fmt.Fprintf(cur, "GET http://%s/ HTTP/1.1\r\nHost: %s\r\n\r\n", phost, phost)
+		if resp, err := readResp(false, 2*time.Second); err != nil || resp.StatusCode != 200 {
+			res.Err = fmt.Sprintf("first exchange failed: %v", err)
+			return
+		}
+	} else {
+		fmt.Fprintf(cur, "CONNECT %s HTTP/1.1\r\nHost: %s\r\n\r\n", ohost, ohost)
+		if resp, err := readResp(true, 2*time.Second); err != nil || resp.StatusCode != 200 {
+			res.Err = fmt.Sprintf("CONNECT failed: %v", err)
+			return
+		}
+		tc := tls.Client(conn, &tls.Config{InsecureSkipVerify: true, ServerName: "127.0.0.1"}) //nolint:gosec
+		tc.SetDeadline(time.Now().Add(2 * time.Second))
+		if err := tc.Handshake(); err != nil {
+			res.Err = "handshake with the intercepting proxy: " + err.Error()
+			return
+		}
+		tc.SetDeadline(time.Time{})
+		cur, br = tc, bufio.NewReader(tc)
+		fmt.Fprintf(cur, "GET / HTTP/1.1\r\nHost: %s\r\n\r\n", ohost)
+		if resp, err := readResp(false, 2*time.Second); err != nil || resp.StatusCode != 200 {
+			res.Err = fmt.Sprintf("request inside the session failed: %v", err)
+			return
+		}
+	}
+	cancel()
+	deadline := time.Now().Add(time.Second)
+	for !hp.VerifC11Closing() && time.Now().Before(deadline) {
+		time.Sleep(200 * time.Microsecond)
+	}
+	if !hp.VerifC11Closing() {
+		res.Err = "closing never observed"
+		return
+	}
+	before := crt.n.Load()
+	connect := false
+	switch sc.Kind {
+	case "session-get":
+		fmt.Fprintf(cur, "GET /late HTTP/1.1\r\nHost: %s\r\n\r\n", ohost)
+	case "session-connect", "idle-connect":
+		connect = true
+		fmt.Fprintf(cur, "CONNECT %s HTTP/1.1\r\nHost: %s\r\n\r\n", ohost, ohost)
+	}
+	if resp, err := readResp(connect, 400*time.Millisecond); err == nil && resp != nil {
+		res.GotResponse = true
+	}
+	select {
+	case <-done:
+	case <-time.After(3 * time.Second):
+		res.Err = "Run did not return"
+	}
+	cur.SetReadDeadline(time.Now().Add(400 * time.Millisecond))
+	buf := make([]byte, 64)
+	for {
+		_, err := br.Read(buf)
+		if err != nil {
+			var ne net.Error
+			res.EOF = !(errors.As(err, &ne) && ne.Timeout())
+			break
+		}
+	}
+	res.UpstreamAfter = crt.n.Load() - before
+	return res
+}
+
+func genMitmScenarios() []mitmScenario {
+	return []mitmScenario{
+		{Name: "mitm/session-get", Kind: "session-get"},
+		{Name: "mitm/session-connect", Kind: "session-connect"},
+		{Name: "mitm/idle-connect", Kind: "idle-connect"},
+	}
+}
+
+func coqMitm(m mitmResult) string {
+	return fmt.Sprintf("{| m_upstream_after := (%d)%%Z; m_got_response := %s; m_eof := %s |}", m.UpstreamAfter, coqBool(m.GotResponse), coqBool(m.EOF))
 }
